@@ -96,7 +96,7 @@ def shard(idx, n, seed, tier, params):
                 import shutil
                 shutil.rmtree(os.path.join(tp.dir, "target"), ignore_errors=True)
                 r = run_mos(["--no-color", "-e", "Short", "build"], tp.dir)
-                if r["timeout"] or r["rc"] in (97, 101) or (r["rc"] or 0) < 0:
+                if r["timeout"] or r["rc"] in (96, 97, 101) or (r["rc"] or 0) < 0:
                     acc.inconc("abnormal exit %s" % r["rc"])
                     snaps = None
                     break
